@@ -291,7 +291,8 @@ Inductive ofinding :=
 | OKf (k : finding)
 | OKfRenameKeepsLinkCount    (* OrefaFS.Rename over an existing file: the replaced inode keeps its link count *)
 | OKfRenameHardLinkAlias     (* OrefaFS.Rename(a, b), a and b names of one inode: a is removed; rename(2) does nothing *)
-| OKfPathTruncatePriority.   (* OrefaFS.Truncate(missing name, negative size): ENOENT; truncate(2) refuses the size first *)
+| OKfPathTruncatePriority    (* OrefaFS.Truncate(missing name, negative size): ENOENT; truncate(2) refuses the size first *)
+| OKfRenameSameNameMissing.  (* OrefaFS.Rename(x, x) returns nil even when x does not exist *)
 
 Definition kf02_orefa (st : fstate) (op : fop) : option ofinding :=
   match op with
@@ -301,6 +302,7 @@ Definition kf02_orefa (st : fstate) (op : fop) : option ofinding :=
       | Some i, Some j =>
           if Nat.eqb i j then (if str_eqb old new then None else Some OKfRenameHardLinkAlias)
           else if still_visible st j then Some OKfRenameKeepsLinkCount else None
+      | None, _ => if str_eqb old new then Some OKfRenameSameNameMissing else None
       | _, _ => None
       end
   | PTruncate name size =>
